@@ -159,8 +159,10 @@ func init() {
 				}
 				n++
 				// (an empty sender name stands for "no sender": nothing to reject)
+				// (the loops may live in a per-chunk helper carved out of this function)
+				g := call.Parent()
 				empty := map[Edge]bool{}
-				for _, ea := range condEdges(f) {
+				for _, ea := range condEdges(g) {
 					if ea.A.Kind != "cmp" || ea.A.Op != token.EQL || ea.A.X == nil {
 						continue
 					}
@@ -168,7 +170,7 @@ func init() {
 						empty[ea.E] = true
 					}
 				}
-				ok, path := loopPasses(f, call, func(e Edge) bool { return empty[e] })
+				ok, path := loopPasses(g, call, func(e Edge) bool { return empty[e] })
 				c.Check(ok, fk+" :: "+spec[1]+" handled for every entry", w.ipos(call), "on every way round the loop", "an entry of "+spec[1]+" can be passed over: "+pathStr(w, path))
 				// the loop itself visits every entry: counted on the first instruction of its body
 				var first ssa.Instruction = call
@@ -179,7 +181,7 @@ func init() {
 						}
 					}
 				}
-				trips, okT := unitLoopTripsX(w, first, func(b *ssa.BasicBlock) bool { return edgeOnlyFails(w, f, b) })
+				trips, okT := unitLoopTripsX(w, first, func(b *ssa.BasicBlock) bool { return edgeOnlyFailsDeep(w, f, b) })
 				c.Check(okT && strings.HasSuffix(trips, "."+spec[1]+")"), fk+" :: the loop over "+spec[1]+" visits every entry", w.ipos(call), trips, "the loop runs "+trips+" times")
 			}
 		}
